@@ -376,7 +376,7 @@ err:
 #ifndef LIBXMP_CORE_PLAYER
 #define MAGIC_OGGS	0x4f676753
 
-static int is_ogg_sample(HIO_HANDLE *f, struct xmp_sample *xxs)
+static int is_ogg_sample(HIO_HANDLE *f, struct xmp_sample *xxs, uint32 stored)
 {
 	/* uint32 size; */
 	uint32 id;
@@ -386,6 +386,11 @@ static int is_ogg_sample(HIO_HANDLE *f, struct xmp_sample *xxs)
 	 * Bonnie's Bookstore music.oxm contains zero length samples
 	 * followed immediately by OGG samples. */
 	if (xxs->len < 4)
+		return 0;
+
+	/* The stored data must hold the 4-byte size and the "OggS" magic
+	 * themselves: never probe into the data of the next sample. */
+	if (stored < 8)
 		return 0;
 
 	if ((pos = hio_tell(f)) < 0)
@@ -744,7 +749,7 @@ static int load_instruments(struct module_data *m, int version, HIO_HANDLE *f)
 			        D_(D_INFO "  read sample: index:%d sample id:%d", j, sub->sid);
 
 #ifndef LIBXMP_CORE_PLAYER
-				if (is_ogg_sample(f, xxs)) {
+				if (is_ogg_sample(f, xxs, xsh[j].length)) {
 					if (oggdec(m, f, xxs, xsh[j].length) < 0) {
 						return -1;
 					}
